@@ -362,3 +362,48 @@ proof! {
         cover!(data[1] == 2);
     }
 }
+
+
+proof! {
+    //@ props=C05,C11,C15 tier=quick bounds=read_var_u32/read_var_i32:every-input-of-up-to-6-bytes(non-canonical-and-over-long-forms-included);3-input-implementations cap=900
+    fn c05_read_var_all_inputs() unwind(10) {
+        let data: [u8; 6] = sym::bytes();
+        let len = sym::index_below(7);
+        let mut rd = Rd::new(&data[..len]);
+        let expected = rd.varu();
+        let mut a = SliceInput::new(&data[..len]);
+        match a.read_var_u32() {
+            Ok(v) => assert!(expected == Some(v) && a.pos == rd.pos, "read_var_u32 disagrees with the format on some input"),
+            Err(e) => { assert!(expected.is_none()); std::mem::forget(e); }
+        }
+        let mut v = data.to_vec();
+        v.truncate(len);
+        let mut b = OwnedInput::new(v);
+        match b.read_var_u32() {
+            Ok(v) => assert!(expected == Some(v)),
+            Err(e) => { assert!(expected.is_none()); std::mem::forget(e); }
+        }
+        let mut c = DeserializationContext::new(&data[..len]);
+        let mut rd2 = Rd::new(&data[..len]);
+        let expected_i = rd2.vari();
+        match c.read_var_i32() {
+            Ok(v) => assert!(expected_i == Some(v), "read_var_i32 disagrees with the format on some input"),
+            Err(e) => { assert!(expected_i.is_none()); std::mem::forget(e); }
+        }
+        cover!(len == 6 && data[4] & 0x80 != 0);
+        std::mem::forget(b);
+        std::mem::forget(c);
+    }
+}
+
+proof! {
+    //@ props=C08 tier=quick bounds=TailOpt{a:u8,b:Option<u8>}:encoding-cut-right-before-the-tag-of-the-trailing-optional-field cap=900
+    fn c08_trunc_trailing_option() unwind(6) {
+        let a = sym::u8_();
+        let data = [0u8, a];
+        match desert_core::deserialize::<TailOpt>(&data) {
+            Ok(v) => { std::mem::forget(v); assert!(false, "a record cut before the tag of its trailing optional field was decoded"); }
+            Err(e) => { cover!(true); std::mem::forget(e); }
+        }
+    }
+}
